@@ -1,3 +1,4 @@
 INIT OInit
 NEXT ONext
 INVARIANT Tag_NothingLost
+INVARIANT Tag_NoOneRowTable
